@@ -237,6 +237,11 @@ async fn load_config_file(path: impl AsRef<Path>) -> Result<ConfigFile> {
 pub struct Peers(Vec<PeerInfo>);
 
 impl Peers {
+    #[cfg(feature = "verif")]
+    pub fn verif_new(peers: Vec<PeerInfo>) -> Self {
+        Peers(peers)
+    }
+
     pub fn peer_nodes(&self) -> &[PeerInfo] {
         &self.0
     }
@@ -275,7 +280,45 @@ pub struct Config {
 }
 
 impl Config {
+    /// What load_config builds from the command line and the config file, without either.
+    #[cfg(feature = "verif")]
+    #[allow(clippy::too_many_arguments)]
+    pub fn verif_new(
+        node_id: String,
+        heartbeat_min_timeout: u64,
+        quorum_configured: Option<usize>,
+        priority: Option<i64>,
+        raft_port: u16,
+        sync_port: u16,
+        worterbuch_executable: String,
+        data_dir: PathBuf,
+        peers: &Peers,
+    ) -> Result<Self> {
+        let (quorum, quorum_too_low) = quorum_sanity_check(quorum_configured, peers.peer_nodes())?;
+        Ok(Config {
+            node_id,
+            heartbeat_interval: Duration::from_millis(100),
+            heartbeat_min_timeout,
+            raft_port,
+            quorum,
+            quorum_too_low,
+            sync_port,
+            worterbuch_executable,
+            stats_port: 0,
+            priority,
+            suicide_on_split_brain: true,
+            data_dir,
+            quorum_configured,
+            config_scan_interval: 5,
+        })
+    }
+
     pub fn election_timeout(&self) -> Duration {
+        #[cfg(feature = "verif")]
+        if let Some(jitter) = crate::verif::fixed_jitter() {
+            let fixed = (jitter * self.heartbeat_min_timeout as f64).round() as u64;
+            return Duration::from_millis(self.heartbeat_min_timeout + fixed);
+        }
         let randomized = (rand::random::<f64>() * self.heartbeat_min_timeout as f64).round() as u64;
         Duration::from_millis(self.heartbeat_min_timeout + randomized)
     }
